@@ -8,7 +8,7 @@ use std::time::{Duration, Instant};
 use crate::polling::Poller;
 use std::{io, slice};
 use crate::list::{SourceEntry, SourceList};
-use crate::sources::{Dispatcher, EventSource, IdleDispatcher, EventDispatcher};
+use crate::sources::{Dispatcher, EventSource, Idle, IdleDispatcher, EventDispatcher};
 use crate::sys::PollEvent;
 use crate::token::TokenInner;
 use crate::{AdditionalLifecycleEventsSet, Poll, PostAction, Readiness, Token, TokenFactory};
@@ -18,6 +18,7 @@ use crate::{AdditionalLifecycleEventsSet, Poll, PostAction, Readiness, Token, To
 //@ include loop_slices_body
 //@ include loop_ops_body
 //@ include loop_lifecycle_body
+//@ include loop_idles_body
 } // mod loop_logic
 pub use crate::loop_logic::RegistrationToken;
 pub mod sys {
